@@ -141,6 +141,7 @@ class P:
             if v[0] == '%': return ('local', unq(v[1:]))
             if v[0] == '@': return ('global', unq(v[1:]))
         if k == 'int': return ('int', int(v))
+        if k == 'meta': return ('undef',)
         if k == 'float': return ('fp', float(v))
         if k == 'hex':
             h = v[2:]
@@ -376,6 +377,10 @@ class Emitter:
         self.ext_funcs = {}          # name -> (ret, params, va)
         self.unmodelled = set()
         self.defined = None          # names defined by the environment model (None: do not generate traps)
+        self.blocking = set()        # E2: names of blocking primitives (hand-written step functions)
+        self.mayblock = set()        # E2: defined functions that can reach one
+        self.addr_taken = set()
+        self.frames = collections.OrderedDict()
 
     # ---- types
     def resolve(self, t):
@@ -679,6 +684,53 @@ class Emitter:
             subs.append('{{' + ','.join(ents) + '}}')
         return '%s G_%s = {%s};' % (ct, san(g), ','.join(subs))
 
+    # ---- E2 support
+    def frame_field(self, nm):
+        return 'f_' + san(nm)
+    def sig_compatible(self, nm, ft):
+        f = self.m.funcs[nm]
+        ps = [t for t, _, _ in f.params]
+        if len(ps) != len(ft[2]): return False
+        return f.ret == ft[1] and all(a == b for a, b in zip(ps, ft[2]))      # exact IR types (typed pointers)
+    def compute_mayblock(self):
+        """functions that can reach a blocking primitive (direct calls; indirect calls resolved over address-taken functions)"""
+        calls = {}; indirect = set()
+        text_refs = collections.Counter()
+        for nm, f in self.m.funcs.items():
+            cs = set()
+            for b, ins in f.blocks.items():
+                for ln in ins:
+                    for g in re.findall(r'@("[^"]+"|[-a-zA-Z$._0-9]+)', ln):
+                        g = self.unalias(unq(g))
+                        is_call = re.search(r'\b(call|invoke)\b[^@]*@' + re.escape(g if re.fullmatch(r'[-a-zA-Z$._0-9]+', g) else '"' + g + '"') + r'\(', ln)
+                        if is_call: cs.add(g)
+                        elif g in self.m.funcs: self.addr_taken.add(g)
+                    if re.search(r'\b(call|invoke)\b[^@]*%[-a-zA-Z$._0-9"]+\(', ln) and not re.search(r'\b(call|invoke)\b[^(]*@', ln): indirect.add(nm)
+            calls[nm] = cs
+        for g, gd in self.m.globals.items():       # vtables / constant tables
+            def walk(v):
+                if not isinstance(v, tuple): return
+                if v and v[0] == 'global':
+                    n = self.unalias(v[1])
+                    if n in self.m.funcs: self.addr_taken.add(n)
+                for y in v:
+                    if isinstance(y, (tuple, list)):
+                        for z in (y if isinstance(y, list) else [y]): walk(z) if isinstance(z, tuple) else None
+                        if isinstance(y, tuple): walk(y)
+            if gd.get('init') is not None: walk(gd['init'])
+        mb = set()
+        changed = True
+        while changed:
+            changed = False
+            for nm in self.m.funcs:
+                if nm in mb or nm in self.stubs: continue
+                cs = calls[nm]
+                hit = any(c in self.blocking or c in mb for c in cs)
+                if not hit and nm in indirect:
+                    hit = any(t in mb for t in self.addr_taken)
+                if hit: mb.add(nm); changed = True
+        self.mayblock = mb
+
     # ---- driver
     def run(self, entries):
         self.dispatchers = {}; self.used_slots = set(); self.seen_vtables = []; self.all_slots = bool(os.environ.get('IR2C_NO_DEVIRT'))
@@ -691,7 +743,10 @@ class Emitter:
             progress = False
             while self.need_funcs:
                 nm = self.need_funcs.pop(); progress = True
-                bodies.append(FuncEmitter(self, self.m.funcs[nm]).emit())
+                if nm in self.mayblock:
+                    bodies.append(ResumableFuncEmitter(self, self.m.funcs[nm]).emit())
+                else:
+                    bodies.append(FuncEmitter(self, self.m.funcs[nm]).emit())
             while gi < len(self.seen_globals):
                 g = self.seen_globals[gi]; gi += 1; progress = True
                 if self.is_vtable(g): self.seen_vtables.append(g)
@@ -726,9 +781,14 @@ class Emitter:
                 rv = '' if ret[0] == 'void' else ' return (%s)%s;' % (self.ety(ret), '{0}' if ret[0] in ('struct', 'array', 'named', 'vector') else '0')
                 traps.append('%s %s(%s) { __CPROVER_assert(0, "VERIF model: unencoded external %s reached"); __CPROVER_assume(0);%s }' %
                              (self.ety(ret), san(nm), args, nm[:80], rv))
+        addr_stubs = []
         for nm in self.seen_funcs:
             f = self.m.funcs[nm]
             o2.append(self.proto(nm, f.ret, [t for t, _, _ in f.params], f.va) + ';')
+            if nm in self.mayblock:
+                rv = '' if f.ret[0] == 'void' else ' return (%s)%s;' % (self.cty(f.ret), '{0}' if f.ret[0] in ('struct', 'array', 'named', 'vector') else '0')
+                addr_stubs.append('%s { __CPROVER_assert(0, "VERIF model: resumable function %s entered directly"); __CPROVER_assume(0);%s }' %
+                                  (self.proto(nm, f.ret, [t for t, _, _ in f.params], f.va, ['p%d_' % i for i in range(len(f.params))]), nm[:60], rv))
         for g in self.seen_globals:
             gd = self.m.globals[g]
             if 'alias' in gd: continue
@@ -785,6 +845,17 @@ class Emitter:
             o.append(gdefs[g])
         o += disp_bodies
         o += traps
+        if self.frames or self.blocking:
+            o.append('#include "e2_rt.h"')
+            emitted_f = set()
+            def emit_frame(nm):
+                if nm in emitted_f or nm not in self.frames: return
+                emitted_f.add(nm)
+                for sub in self.frames[nm][1]: emit_frame(sub)
+                o.append(self.frames[nm][0])
+            for nm in list(self.frames): emit_frame(nm)
+            for nm in self.frames: o.append('static int %s_step(struct FR_%s *fr);' % (san(nm), san(nm)))
+            o.extend(addr_stubs)
         o += bodies
         return '\n'.join(o) + '\n'
 
@@ -894,6 +965,10 @@ class FuncEmitter:
                     self.decl(x[1], x[2]); continue
                 r = self.gen(x)
                 if r: out.extend(r if isinstance(r, list) else [r])
+        return self.finish(out)
+
+    def finish(self, out):
+        em = self.em; f = self.f
         names = [self.lname(pn) for _, pn, _ in f.params]
         hdr = em.proto(f.name, f.ret, [t for t, _, _ in f.params], f.va, names)
         dl = ['  %s %s;' % (ct, n) for n, ct in self.decls.items() if n not in names]
@@ -901,6 +976,7 @@ class FuncEmitter:
 
     # -------------------------------------------------- instruction parsing
     def parse_ins(self, s):
+        s = re.sub(r'(,\s*![\w.]+\s+![\w.]+)+\s*$', '', s)       # trailing instruction metadata
         p = P(lex(s), self.em.m)
         res = None
         if p.peek()[0] in ('id', 'qid') and p.peek(1)[1] == '=':
@@ -1090,8 +1166,7 @@ class FuncEmitter:
             s.append('  default: %s }' % self.edge(d))
             return s
         if k == 'ret':
-            if x[1] is None: return 'return;'
-            return 'return %s;' % V(x[1], x[2])
+            return self.gen_ret(x)
         if k == 'unreachable': return '__CPROVER_assume(0);'
         if k == 'landingpad':
             self.decl(x[1], x[2]); return '__CPROVER_assume(0);'
@@ -1127,6 +1202,10 @@ class FuncEmitter:
         if k == 'call': return self.gen_call(x)
         raise NotImplementedError(k)
 
+    def gen_ret(self, x):
+        if x[1] is None: return 'return;'
+        return 'return %s;' % self.em.val(x[1], x[2], self)
+
     def gen_call(self, x):
         em = self.em
         _, res, rt, fty, callee, args, dest = x
@@ -1134,6 +1213,8 @@ class FuncEmitter:
         tail = [self.edge(dest)] if dest else []
         pre = []
         argv = []
+        if callee[0] == 'global' and callee[1].startswith(INTRIN_SKIP):
+            return tail
         for at, av, info in args:
             e = V(at, av)
             if 'byval' in info:
@@ -1308,6 +1389,93 @@ class FuncEmitter:
         if nm.startswith('llvm.fmuladd.'): return '%s = %s * %s + %s;' % (r, a[0], a[1], a[2])
         raise NotImplementedError('intrinsic ' + nm)
 
+class ResumableFuncEmitter(FuncEmitter):
+    """E2: a function that can reach a blocking primitive becomes `int f_step(struct FR_f *fr)`: its SSA values live in the
+    frame, a call to another may-block function (or to a primitive, whose step function is hand-written in rt/e2_rt.c) runs
+    the callee's step function on a sub-frame and, when that yields (returns 0), stores the resume point and yields too."""
+    def __init__(self, em, f):
+        FuncEmitter.__init__(self, em, f)
+        self.sites = 0
+        self.subs = []            # callee names whose frames are embedded
+    def lname(self, n):
+        return 'fr->' + FuncEmitter.lname(self, n)
+    def gen_ret(self, x):
+        if x[1] is None: return 'return 1;'
+        return ['fr->ret = %s;' % self.em.val(x[1], x[2], self), 'return 1;']
+    def subcall(self, nm, argv, args, res, rt):
+        em = self.em
+        self.sites += 1; k = self.sites
+        if nm not in self.subs: self.subs.append(nm)
+        sf = 'fr->sub.%s' % em.frame_field(nm)
+        out = ['%s.pc = 0;' % sf]
+        if nm in em.blocking:
+            out += ['%s.a%d = %s;' % (sf, i, ('(uint8_t*)%s' % a) if args[i][0][0] == 'ptr' else a) for i, a in enumerate(argv)]
+        else:
+            em.ref_global(nm)
+            sig = [t for t, _, _ in em.m.funcs[nm].params]
+            out += ['%s.a%d = %s;' % (sf, i, ('(%s)%s' % (em.cty(sig[i]), a)) if sig[i][0] == 'ptr' else a) for i, a in enumerate(argv)]
+        out.append('R_%d: ;' % k)
+        out.append('if (!%s_step(&%s)) { fr->pc = %d; return 0; }' % (san(nm), sf, k))
+        if res is not None and rt[0] != 'void':
+            self.decl(res, rt)
+            out.append('%s = %s%s.ret;' % (self.lname(res), '(%s)' % em.cty(rt) if rt[0] == 'ptr' else '', sf))
+        return out
+    def gen_call(self, x):
+        em = self.em
+        _, res, rt, fty, callee, args, dest = x
+        V = lambda t, v: em.val(t, v, self)
+        tail = [self.edge(dest)] if dest else []
+        if callee[0] == 'global':
+            nm = em.unalias(callee[1])
+            if nm in em.blocking or nm in em.mayblock:
+                for at, av, info in args:
+                    if 'byval' in info: raise NotImplementedError('byval argument to a may-block call in ' + self.f.name)
+                return self.subcall(nm, [V(at, av) for at, av, info in args], args, res, rt) + tail
+            return FuncEmitter.gen_call(self, x)
+        # indirect call: may-block candidates are dispatched to their step functions
+        ft = ('func', rt, tuple(a[0] for a in args), False) if fty is None else fty
+        cands = [nm for nm in em.mayblock if nm in em.addr_taken and em.sig_compatible(nm, ft)]
+        if not cands:
+            return FuncEmitter.gen_call(self, x)
+        fv = 'fr->vf%d_' % len(self.decls)
+        self.decls[fv] = em.fnty(ft)
+        out = ['%s = ((%s)%s);' % (fv, em.fnty(ft), V(('ptr', ft), callee))]
+        argv = [V(at, av) for at, av, info in args]
+        self.sites += 1; d = self.sites
+        for nm in cands:
+            em.ref_global(nm)
+            self.sites += 1; n = self.sites
+            out.append('if (%s != (%s)&%s) goto N_%d;' % (fv, em.fnty(ft), san(nm), n))
+            out += self.subcall(nm, argv, args, res, rt)
+            out.append('goto D_%d;' % d)
+            out.append('N_%d: ;' % n)
+        # remaining targets are ordinary functions
+        call = '%s(%s)' % (fv, ', '.join(argv))
+        if res is not None and rt[0] != 'void':
+            self.decl(res, rt); out.append('%s = %s;' % (self.lname(res), call))
+        else: out.append(call + ';')
+        out.append('D_%d: ;' % d)
+        return out + tail
+    def finish(self, out):
+        em = self.em; f = self.f
+        fields = ['uint32_t pc;']
+        if f.ret[0] != 'void': fields.append('%s ret;' % em.cty(f.ret))
+        pro = []
+        for i, (t, pn, info) in enumerate(f.params):
+            fields.append('%s a%d;' % (em.cty(t), i))
+            nm = FuncEmitter.lname(self, pn)
+            if ('fr->' + nm) not in self.decls: self.decls['fr->' + nm] = em.cty(t)
+            pro.append('fr->%s = fr->a%d;' % (nm, i))
+        for n, ct in self.decls.items():
+            fields.append('%s %s;' % (ct, n[4:] if n.startswith('fr->') else n))
+        if self.subs:
+            fields.append('struct { %s } sub;' % ' '.join('struct FR_%s %s;' % (san(nm), em.frame_field(nm)) for nm in self.subs))
+        em.frames[f.name] = ('struct FR_%s { %s };' % (san(f.name), ' '.join(fields)), list(self.subs))
+        sw = ['case %d: goto R_%d;' % (k, k) for k in range(1, self.sites + 1) if ('R_%d: ;' % k) in out]
+        body = '\n'.join('  ' + s_ for s_ in out)
+        return ('static int %s_step(struct FR_%s *fr) {\n  switch (fr->pc) { case 0: break; %s default: __CPROVER_assert(0, "VERIF model: bad resume point"); __CPROVER_assume(0); }\n  %s\n  goto %s;\n%s\n}\n'
+                % (san(f.name), san(f.name), ' '.join(sw), ' '.join(pro), self.lab(f.entry), body))
+
 def main():
     import argparse
     ap = argparse.ArgumentParser()
@@ -1316,6 +1484,8 @@ def main():
     ap.add_argument('--stub', action='append', default=[], help='treat as external even if defined')
     ap.add_argument('--stubfile')
     ap.add_argument('--report')
+    ap.add_argument('--e2-main'); ap.add_argument('--e2-thread-entry', help='regex of the thread body function (std::thread::_State_impl<...>::_M_run)')
+    ap.add_argument('--blocking', action='append', default=[], help='E2: blocking primitive (step function in rt/e2_rt.h)')
     ap.add_argument('--defined', help='file with names of functions the environment model defines; other externals become traps')
     a = ap.parse_args()
     stubs = list(a.stub)
@@ -1325,10 +1495,42 @@ def main():
     em = Emitter(mod, stubs)
     if a.defined:
         em.defined = set(l.strip() for l in open(a.defined) if l.strip())
-    c = em.run(a.entry)
+    if a.blocking:
+        em.blocking = set(a.blocking)
+        em.compute_mayblock()
+    entries = list(a.entry)
+    tentry = None
+    if a.e2_main:
+        entries.append(a.e2_main)
+        cands = [n for n in mod.funcs if re.fullmatch(a.e2_thread_entry, n)] if a.e2_thread_entry else []
+        if len(cands) > 1: raise SystemExit('ir2c: several thread entry functions match: %s' % cands)
+        if cands: tentry = cands[0]; entries.append(tentry)
+    c = em.run(entries)
+    if a.e2_main:
+        mn = san(a.e2_main)
+        c += 'static struct FR_%s verif_mainfr;\n' % mn
+        if tentry:
+            tn = san(tentry)
+            pt = em.cty(mod.funcs[tentry].params[0][0])
+            # one frame object per model thread and a case split on the thread id, so that every frame access in a
+            # step has a constant base address (a symbolic index into an array of frames makes symex copy whole frames)
+            for i in range(1, 5):
+                c += '#if VERIF_MAXT > %d\nstatic struct FR_%s verif_tfr%d;\n#endif\n' % (i, tn, i)
+            c += 'static void verif_thread_init(uint32_t t, uint8_t *state) {\n'
+            for i in range(1, 5):
+                c += '#if VERIF_MAXT > %d\n  if (t == %d) { verif_tfr%d.pc = 0; verif_tfr%d.a0 = (%s)state; }\n#endif\n' % (i, i, i, i, pt)
+            c += '}\n'
+            c += 'static int verif_step_thread(uint32_t t) {\n  if (t == 0) { verif_cur = 0; return %s_step(&verif_mainfr); }\n' % mn
+            for i in range(1, 5):
+                c += '#if VERIF_MAXT > %d\n  if (t == %d) { verif_cur = %d; return %s_step(&verif_tfr%d); }\n#endif\n' % (i, i, i, tn, i)
+            c += '  return 1;\n}\n'
+        else:
+            c += 'static void verif_thread_init(uint32_t t, uint8_t *state) { __CPROVER_assert(0, "VERIF model: no thread entry function in the module"); }\n'
+            c += 'static int verif_step_thread(uint32_t t) { return %s_step(&verif_mainfr); }\n' % mn
+        c += 'void verif_e2_entry(void) { verif_mainfr.pc = 0; verif_e2_run(); }\n'
     open(a.out, 'w').write(c)
     rep = dict(functions=sorted(em.seen_funcs), externals=sorted(n for n in em.ext_funcs if not n.startswith('llvm.')),
-               globals=list(em.seen_globals), trapped=sorted(getattr(em, 'trapped', [])), external_globals=[g for g in em.seen_globals if mod.globals[g].get('external') or (mod.globals[g].get('init') is None and 'alias' not in mod.globals[g])])
+               globals=list(em.seen_globals), mayblock=sorted(n for n in em.mayblock if n in em.seen_funcs), trapped=sorted(getattr(em, 'trapped', [])), external_globals=[g for g in em.seen_globals if mod.globals[g].get('external') or (mod.globals[g].get('init') is None and 'alias' not in mod.globals[g])])
     if a.report: json.dump(rep, open(a.report, 'w'), indent=1)
     sys.stderr.write('ir2c: %d functions, %d externals, %d globals\n' % (len(rep['functions']), len(rep['externals']), len(rep['globals'])))
 
